@@ -173,6 +173,26 @@ Section WithSink.
       | Fail e => inl (Fail e)
       end
     end.
+  (* like w_inserts, but also reports the index of the insert that ended the run *)
+  Fixpoint w_inserts_at (c : wcfg) (st : wstate) (es : list entry) (i : N) : N * outcome wstate :=
+    match es with
+    | [] => (i, Done st)
+    | (k, v) :: r =>
+      match w_insert c st k v with
+      | Done st' => w_inserts_at c st' r (N.succ i)
+      | Panic => (i, Panic)
+      | Fail e => (i, Fail e)
+      end
+    end.
+
+  (* a whole run: (index of the public call that failed — number of inserts = the finish call,
+     the failure or the final sink) *)
+  Definition w_run_gen (c : wcfg) (s0 : SK) (es : list entry) : N * outcome (SK * list emitted * meta) :=
+    match w_inserts_at c (w_new c s0) es 0 with
+    | (i, Done st) => (i, w_finish c st)
+    | (i, Panic) => (i, Panic)
+    | (i, Fail e) => (i, Fail e)
+    end.
 End WithSink.
 
 (* ---- the plain in-memory sink (Vec<u8>): chunks most recent first ---- *)
